@@ -261,7 +261,19 @@ def check(ctx: Ctx) -> None:
               'the empty-cell skip is missing or does not precede date/amount parsing')
     # column-count guard
     cc = [s for s in cfg.stmts() if isinstance(s, ast.If) and f'len({row})' in src(s.test)]
-    ok = bool(cc) and isinstance(cc[0].body[-1], ast.Continue) and src(cc[0].test).replace(' ', '') in (f'len({row})<=max_col', f'max_col>=len({row})')
+    ok = False
+    if cc and isinstance(cc[0].test, ast.Compare) and len(cc[0].test.ops) == 1:
+        t = cc[0].test
+        l_, r_ = t.left, t.comparators[0]
+        if isinstance(t.ops[0], (ast.GtE, ast.Gt)):
+            l_, r_ = r_, l_
+            strict = isinstance(t.ops[0], ast.Gt)
+        else:
+            strict = isinstance(t.ops[0], ast.Lt)
+        # len(row) <= <highest required column index>: the bound derives from the format's column attributes (whatever the local is called)
+        bound_ok = src(l_) == f'len({row})' and not strict and any(a.startswith('attr:format_spec.') and a.endswith('_column') for a in fl.atoms(r_, cc[0]))
+        # the rows that fail the guard are skipped: the append is not reachable in the same iteration
+        ok = bound_ok and isinstance(cc[0].body[-1], ast.Continue)
     ctx.check(ok, 'C05.R6', f, 'column-guard', 'rows with too few columns are skipped', f'column-count guard is {src(cc[0].test) if cc else "missing"!r}')
     # the date part split applies only when the format has no blank
     dsplit = [s for s in cfg.stmts() if isinstance(s, ast.Assign) and 'date_str.split()' in src(s.value)]
